@@ -382,3 +382,375 @@ delitem = _mk(Contract(
     replay="oracles.bounded_adapter:c15",
     stated=["deleting a key removes exactly that key: the value keeps its other keys in order (or disappears with its last key), nothing else changes, the representation invariant is preserved; a missing key raises KeyError"]))
 delitem.ghost_init_hook = _delitem_init
+
+
+# ---------------------------------------------------------------------------
+# MultiKeyDict.__setitem__
+#   LIDX(t, k): the LAST index of k in t (tuples built inside __setitem__ may hold a key twice before the de-duplication)
+#   key0 = the tuple before the de-duplication loop, key1 = after it (distinct keys, ordered by last occurrence in key0)
+LIDX = z3.Function("LIDX", T, K, INT)
+KEYP = sym._Prim("Key", K)
+
+
+def tuple_axioms(m, t):
+    """facts that hold of every tuple value by the definitions of TIDX (an index of k, when there is one) and LIDX (the last one)"""
+    i, k = z3.Int("i!tx%d" % m.counter), z3.Const("k!tx%d" % m.counter, K)
+    m.counter += 1
+    m.assume(TLEN(t) >= 0)
+    m.assume(z3.ForAll([i], z3.Implies(z3.And(i >= 0, i < TLEN(t)), IN(TAT(t, i), t))))
+    m.assume(z3.ForAll([k], z3.Implies(IN(k, t), z3.And(LIDX(t, k) >= 0, LIDX(t, k) < TLEN(t), TAT(t, LIDX(t, k)) == k))))
+    m.assume(z3.ForAll([k, i], z3.Implies(z3.And(IN(k, t), LIDX(t, k) < i, i < TLEN(t)), TAT(t, i) != k)))
+
+
+def _toT(m, v):
+    if sym.is_z3(v) and v.sort() == T:
+        return v
+    if isinstance(v, tuple) and all(sym.is_z3(x) and x.sort() == K for x in v):
+        t = m.fresh("tuple_display", T)
+        m.assume(TLEN(t) == len(v))
+        for i, x in enumerate(v):
+            m.assume(TAT(t, i) == x)
+        tuple_axioms(m, t)
+        return t
+    raise Unsupported("not a key tuple: %r" % (v,))
+
+
+def _set_binop(m, op, a, b):
+    if isinstance(op, ast.Add) and ((sym.is_z3(a) and a.sort() == T) or (sym.is_z3(b) and b.sort() == T)):
+        ta, tb = _toT(m, a), _toT(m, b)
+        t = m.fresh("tuple_concat", T)
+        i = z3.Int("i!cat%d" % m.counter)
+        m.counter += 1
+        m.assume(TLEN(t) == TLEN(ta) + TLEN(tb))
+        m.assume(z3.ForAll([i], z3.Implies(z3.And(i >= 0, i < TLEN(t)), TAT(t, i) == z3.If(i < TLEN(ta), TAT(ta, i), TAT(tb, i - TLEN(ta))))))
+        # the same fact read from the operands' side
+        m.assume(z3.ForAll([i], z3.Implies(z3.And(i >= 0, i < TLEN(ta)), TAT(ta, i) == TAT(t, i)), patterns=[TAT(ta, i)]))
+        m.assume(z3.ForAll([i], z3.Implies(z3.And(i >= 0, i < TLEN(tb)), TAT(tb, i) == TAT(t, TLEN(ta) + i)), patterns=[TAT(tb, i)]))
+        tuple_axioms(m, t)
+        return t
+    return NotImplemented
+
+
+def _reversed(m, args, kwargs):
+    (v,) = args
+    if isinstance(v, Ref) and v.kind == "list":
+        return ("reversed-list", v)
+    t = _toT(m, v)
+    m.ghost["key0"] = t            # ghost: the tuple the de-duplication loop runs over
+    m.ghost["lpos"] = z3.K(K, z3.IntVal(-1))
+    j = z3.Int("j!rev%d" % m.counter)
+    m.counter += 1
+    return m.new_iter(KEYP, "reversed", finite=True, arr=z3.Lambda([j], TAT(t, TLEN(t) - 1 - j)), length=TLEN(t))
+
+
+def _tuple_builtin2(m, args, kwargs):
+    a = args[0]
+    if isinstance(a, tuple) and len(a) == 2 and a[0] == "reversed-list":
+        ls = a[1]
+        arr, n = m.heap[(ls.id, "arr")], m.heap[(ls.id, "len")]
+        t = m.fresh("tuple_of_reversed", T)
+        i = z3.Int("i!tr%d" % m.counter)
+        m.counter += 1
+        m.assume(TLEN(t) == n)
+        m.assume(z3.ForAll([i], z3.Implies(z3.And(i >= 0, i < n), TAT(t, i) == arr[n - 1 - i])))
+        # the same fact read from the list side (so that it is found from a list index)
+        m.assume(z3.ForAll([i], z3.Implies(z3.And(i >= 0, i < n), arr[i] == TAT(t, n - 1 - i)), patterns=[arr[i]]))
+        tuple_axioms(m, t)
+        return t
+    return _tuple_builtin(m, args, kwargs)
+
+
+_reversed._pyvc_callee = _tuple_builtin2._pyvc_callee = True
+
+
+def _set_isinstance(m, v, cls):
+    if cls is _tuple_builtin2 or cls is _tuple_builtin or getattr(cls, "name", None) == "tuple":
+        return isinstance(v, tuple) or (sym.is_z3(v) and v.sort() == T)
+    return lib.std_isinstance(m, v, cls)
+
+
+def _set_iter(m, v):
+    if isinstance(v, tuple):
+        v = _toT(m, v)
+    if sym.is_z3(v) and v.sort() == T:
+        return _iter_tuple(m, v)
+    return NotImplemented
+
+
+_DEL_ENSURES = None      # filled below from the delitem contract: the callee is used through exactly the clauses proved for it
+
+
+def _delitem_callee(m, args, kwargs):
+    """MultiKeyDict.__delitem__(self, k) called from __setitem__: precondition obliged, maps havocked, proved postcondition assumed"""
+    o, k = args
+    m.oblige("callee/__delitem__/requires-wf", WF(m, o))
+    if m.branch(z3.Not(_dv(m, o, "_keys_dict")[0][k])):
+        raise PyRaise("KeyError")
+    saved_ghost = dict(m.ghost)
+    saved_locals = m.locals
+    _snapshot_into(m, o, m.ghost)
+    for f in ("_keys_dict", "_inv_dict", "__storage__"):
+        r = m.heap[(o.id, f)]
+        m.heap[(r.id, "impl")].havoc(m, r)
+    m.locals = {"self": o, "key": k}
+    try:
+        for label, text in delitem.ensures:
+            m.assume(m.spec(text))
+    finally:
+        m.locals = saved_locals
+        m.ghost = saved_ghost
+    return None
+
+
+_delitem_callee._pyvc_callee = True
+
+
+def _snapshot_into(m, o, g, suffix="0"):
+    for f, tag in (("_keys_dict", "KD"), ("_inv_dict", "ID"), ("__storage__", "SD")):
+        d, v = _dv(m, o, f)
+        g["%sd%s" % (tag, suffix)], g["%sv%s" % (tag, suffix)] = d, v
+
+
+def WFA(KDd, KDv, IDd, IDv, SDd, SDv):
+    k, t, v, i = z3.Const("k!wf", K), z3.Const("t!wf", T), z3.Const("v!wf", V), z3.Int("i!wf")
+    return z3.And(
+        z3.ForAll([k], z3.Implies(KDd[k], z3.And(SDd[KDv[k]], IN(k, KDv[k])))),
+        z3.ForAll([t], z3.Implies(SDd[t], z3.And(TLEN(t) >= 1, IDd[SDv[t]], IDv[SDv[t]] == t))),
+        z3.ForAll([t, i], z3.Implies(z3.And(SDd[t], i >= 0, i < TLEN(t)), z3.And(KDd[TAT(t, i)], KDv[TAT(t, i)] == t, TIDX(t, TAT(t, i)) == i))),
+        z3.ForAll([v], z3.Implies(IDd[v], z3.And(SDd[IDv[v]], SDv[IDv[v]] == v))),
+    )
+
+
+def _cur(m):
+    o = m.locals["self"]
+    return _dv(m, o, "_keys_dict") + _dv(m, o, "_inv_dict") + _dv(m, o, "__storage__")
+
+
+def _old(m, sfx="0"):
+    return tuple(m.ghost["%s%s%s" % (tag, c, sfx)] for tag in ("KD", "ID", "SD") for c in ("d", "v"))
+
+
+def _kk(n=""):
+    return z3.Const("k!s" + n, K)
+
+
+# ---- loop 1 (de-duplication): key_list holds, in decreasing order of LAST index in key0, the distinct keys seen so far
+@_spec
+def L1_SHAPE(m, node):
+    ls, it, key0 = m.locals["key_list"], m.hidden["_it1"], m.ghost["key0"]
+    n, j = m.heap[(ls.id, "len")], m.heap[(it.id, "pos")]
+    return z3.And(n >= 0, n <= j, j <= TLEN(key0), m.heap[(it.id, "len")] == TLEN(key0), z3.Not(m.heap[(it.id, "inf")]), z3.Implies(j >= 1, n >= 1))
+
+
+@_spec
+def L1_ITEMS(m, node):
+    ls, it, key0, lpos = m.locals["key_list"], m.hidden["_it1"], m.ghost["key0"], m.ghost["lpos"]
+    arr, n, j, L = m.heap[(ls.id, "arr")], m.heap[(ls.id, "len")], m.heap[(it.id, "pos")], TLEN(key0)
+    a, b = z3.Int("a!l1"), z3.Int("b!l1")
+    return z3.And(
+        z3.ForAll([a], z3.Implies(z3.And(a >= 0, a < n), z3.And(IN(arr[a], key0), LIDX(key0, arr[a]) >= L - j, lpos[arr[a]] == a))),
+        z3.ForAll([a, b], z3.Implies(z3.And(a >= 0, a < b, b < n), LIDX(key0, arr[a]) > LIDX(key0, arr[b]))))
+
+
+@_spec
+def L1_COVER(m, node):
+    ls, it, key0, lpos = m.locals["key_list"], m.hidden["_it1"], m.ghost["key0"], m.ghost["lpos"]
+    arr, n, j, L = m.heap[(ls.id, "arr")], m.heap[(ls.id, "len")], m.heap[(it.id, "pos")], TLEN(key0)
+    i = z3.Int("i!l1")
+    return z3.ForAll([i], z3.Implies(z3.And(i >= L - j, i < L), z3.And(lpos[TAT(key0, i)] >= 0, lpos[TAT(key0, i)] < n, arr[lpos[TAT(key0, i)]] == TAT(key0, i))))
+
+
+def _l1_step(m):
+    ls, lpos, k = m.locals["key_list"], m.ghost["lpos"], m.locals["k"]
+    arr, n = m.heap[(ls.id, "arr")], m.heap[(ls.id, "len")]
+    m.ghost["lpos"] = z3.If(z3.And(lpos[k] >= 0, lpos[k] < n, arr[lpos[k]] == k), lpos, z3.Store(lpos, k, n - 1))
+
+
+# ---- facts about key1 = the de-duplicated tuple (proved when loop 2 starts, kept as ghost-constant facts)
+def _l2_pre(m):
+    m.ghost["key1"] = m.locals["key"]
+    _snapshot_into(m, m.locals["self"], m.ghost, "1")
+
+
+def _key1_facts(m):
+    key0, key1 = m.ghost["key0"], m.ghost["key1"]
+    i, k, k2 = z3.Int("i!k1"), _kk("1"), _kk("2")
+    return [
+        TLEN(key1) >= 1,
+        z3.ForAll([i], z3.Implies(z3.And(i >= 0, i < TLEN(key1)), TIDX(key1, TAT(key1, i)) == i)),
+        z3.ForAll([k], z3.Implies(IN(k, key1), IN(k, key0))),
+        z3.ForAll([k, k2], z3.Implies(z3.And(IN(k, key1), IN(k2, key1)), (TIDX(key1, k) < TIDX(key1, k2)) == (LIDX(key0, k) < LIDX(key0, k2)))),
+        z3.ForAll([k], z3.Implies(IN(k, key0), IN(k, key1)))]
+
+
+def _k1(idx):
+    @_spec
+    def f(m, node):
+        return _key1_facts(m)[idx]
+    return f
+
+
+KEY1_NONEMPTY, KEY1_DISTINCT, KEY1_MEMBERS, KEY1_ORDER, KEY1_MEMBERS2 = (_k1(i) for i in range(5))
+
+
+def _proc(m, k, p):
+    key1 = m.ghost["key1"]
+    return z3.And(IN(k, key1), TIDX(key1, k) < p)
+
+
+@_spec
+def L2_SHAPE(m, node):
+    it, key1 = m.hidden["_it2"], m.ghost["key1"]
+    return z3.And(m.locals["key"] == key1, m.heap[(it.id, "len")] == TLEN(key1), z3.Not(m.heap[(it.id, "inf")]))
+
+
+@_spec
+def L2_MAP(m, node):
+    KDd, KDv, IDd, IDv, SDd, SDv = _cur(m)
+    KDd0, KDv0, IDd0, IDv0, SDd0, SDv0 = _old(m)
+    p = m.heap[(m.hidden["_it2"].id, "pos")]
+    k = _kk()
+    return z3.ForAll([k], z3.And(KDd[k] == z3.And(KDd0[k], z3.Not(_proc(m, k, p))), z3.Implies(KDd[k], SDv[KDv[k]] == SDv0[KDv0[k]])))
+
+
+def _order_kept(m, cur, old):
+    """inside every group of `cur`, the keys are in the order they had in their group in `old`"""
+    KDd, KDv, IDd, IDv, SDd, SDv = cur
+    KDd0, KDv0, IDd0, IDv0, SDd0, SDv0 = old
+    k, k2 = _kk("a"), _kk("b")
+    return z3.ForAll([k, k2], z3.Implies(z3.And(KDd[k], KDd[k2], KDv[k] == KDv[k2]),
+                                         z3.And(KDv0[k] == KDv0[k2], (TIDX(KDv[k], k) < TIDX(KDv[k], k2)) == (TIDX(KDv0[k], k) < TIDX(KDv0[k], k2)))))
+
+
+@_spec
+def L2_ORDER(m, node):
+    return _order_kept(m, _cur(m), _old(m))
+
+
+# ---- loop 3 (assignment): _keys_dict gets key1 for the keys assigned so far; the two other maps are as loop 2 left them
+def _l3_pre(m):
+    _snapshot_into(m, m.locals["self"], m.ghost, "2")
+
+
+@_spec
+def L3_SHAPE(m, node):
+    it, key1 = m.hidden["_it3"], m.ghost["key1"]
+    KDd, KDv, IDd, IDv, SDd, SDv = _cur(m)
+    KDd2, KDv2, IDd2, IDv2, SDd2, SDv2 = _old(m, "2")
+    return z3.And(m.locals["key"] == key1, m.heap[(it.id, "len")] == TLEN(key1), z3.Not(m.heap[(it.id, "inf")]),
+                  IDd == IDd2, IDv == IDv2, SDd == SDd2, SDv == SDv2)
+
+
+@_spec
+def L3_KD(m, node):
+    KDd, KDv = _cur(m)[:2]
+    KDd2, KDv2 = _old(m, "2")[:2]
+    q = m.heap[(m.hidden["_it3"].id, "pos")]
+    key1 = m.ghost["key1"]
+    k = _kk()
+    return z3.ForAll([k], z3.If(_proc(m, k, q), z3.And(KDd[k], KDv[k] == key1), z3.And(KDd[k] == KDd2[k], KDv[k] == KDv2[k])))
+
+
+# ---- postcondition (mode: one key x, value v)
+@_spec
+def SET_MAP(m, node):
+    KDd, KDv, IDd, IDv, SDd, SDv = _cur(m)
+    KDd0, KDv0, IDd0, IDv0, SDd0, SDv0 = _old(m)
+    x, v = m.params0["key"], m.params0["value"]
+    k = _kk()
+    return z3.And(KDd[x], SDv[KDv[x]] == v,
+                  z3.ForAll([k], z3.Implies(k != x, z3.And(KDd[k] == KDd0[k], z3.Implies(KDd0[k], SDv[KDv[k]] == SDv0[KDv0[k]])))))
+
+
+@_spec
+def SET_GROUPS(m, node):
+    """each value owns exactly one key tuple listing exactly its keys"""
+    KDd, KDv, IDd, IDv, SDd, SDv = _cur(m)
+    k, w = _kk(), z3.Const("w!s", V)
+    return z3.ForAll([k, w], z3.And(IDd[w], IN(k, IDv[w])) == z3.And(KDd[k], SDv[KDv[k]] == w))
+
+
+@_spec
+def SET_RECENT_LAST(m, node):
+    """the key just assigned is the last of its value's tuple; all other keys, in every tuple, keep their relative order"""
+    KDd, KDv, IDd, IDv, SDd, SDv = _cur(m)
+    KDd0, KDv0, IDd0, IDv0, SDd0, SDv0 = _old(m)
+    x, v = m.params0["key"], m.params0["value"]
+    k, k2 = _kk("a"), _kk("b")
+    g = IDv[v]
+    return z3.And(IDd[v], TAT(g, TLEN(g) - 1) == x,
+                  z3.ForAll([k, k2], z3.Implies(z3.And(KDd[k], KDd[k2], KDv[k] == KDv[k2], k != x, k2 != x),
+                                                z3.And(KDv0[k] == KDv0[k2], (TIDX(KDv[k], k) < TIDX(KDv[k], k2)) == (TIDX(KDv0[k], k) < TIDX(KDv0[k], k2))))))
+
+
+def _key_tuple_param(m, name):
+    t = z3.Const("keyt", T)
+    tuple_axioms(m, t)
+    return t
+
+
+@_spec
+def SETT_MAP(m, node):
+    KDd, KDv, IDd, IDv, SDd, SDv = _cur(m)
+    KDd0, KDv0, IDd0, IDv0, SDd0, SDv0 = _old(m)
+    kt, v = m.params0["key"], m.params0["value"]
+    k = _kk()
+    return z3.ForAll([k], z3.If(IN(k, kt), z3.And(KDd[k], SDv[KDv[k]] == v),
+                                z3.And(KDd[k] == KDd0[k], z3.Implies(KDd0[k], SDv[KDv[k]] == SDv0[KDv0[k]]))))
+
+
+def _sett_recent(m):
+    """in the value's tuple the keys just assigned come last, ordered by their last occurrence in the key tuple given;
+    all other keys, in every tuple, keep their relative order"""
+    KDd, KDv, IDd, IDv, SDd, SDv = _cur(m)
+    KDd0, KDv0, IDd0, IDv0, SDd0, SDv0 = _old(m)
+    kt, v = m.params0["key"], m.params0["value"]
+    k, k2 = _kk("a"), _kk("b")
+    same = z3.And(KDd[k], KDd[k2], KDv[k] == KDv[k2])
+    before = TIDX(KDv[k], k) < TIDX(KDv[k], k2)
+    return [z3.ForAll([k, k2], z3.Implies(z3.And(same, z3.Not(IN(k, kt)), z3.Not(IN(k2, kt))),
+                                          z3.And(KDv0[k] == KDv0[k2], before == (TIDX(KDv0[k], k) < TIDX(KDv0[k], k2))))),
+            z3.ForAll([k, k2], z3.Implies(z3.And(same, z3.Not(IN(k, kt)), IN(k2, kt)), before)),
+            z3.ForAll([k, k2], z3.Implies(z3.And(same, IN(k, kt), IN(k2, kt)), before == (LIDX(kt, k) < LIDX(kt, k2))))]
+
+
+def _sr(idx):
+    @_spec
+    def f(m, node):
+        return _sett_recent(m)[idx]
+    return f
+
+
+SETT_OTHERS, SETT_NEW_AFTER_OLD, SETT_NEW_BY_LAST = (_sr(i) for i in range(3))
+_ENV.update(SETT_MAP=SETT_MAP, SETT_OTHERS=SETT_OTHERS, SETT_NEW_AFTER_OLD=SETT_NEW_AFTER_OLD, SETT_NEW_BY_LAST=SETT_NEW_BY_LAST)
+_ENV.update(L1_SHAPE=L1_SHAPE, L1_ITEMS=L1_ITEMS, L1_COVER=L1_COVER, KEY1_NONEMPTY=KEY1_NONEMPTY, KEY1_DISTINCT=KEY1_DISTINCT, KEY1_MEMBERS=KEY1_MEMBERS, KEY1_ORDER=KEY1_ORDER, KEY1_MEMBERS2=KEY1_MEMBERS2, L2_SHAPE=L2_SHAPE, L2_MAP=L2_MAP, L2_ORDER=L2_ORDER,
+            L3_SHAPE=L3_SHAPE, L3_KD=L3_KD, SET_MAP=SET_MAP, SET_GROUPS=SET_GROUPS, SET_RECENT_LAST=SET_RECENT_LAST)
+
+setitem = _mk(Contract(
+    name="MultiKeyDict.__setitem__", qual="audiolazy/lazy_core.py::MultiKeyDict.__setitem__", kind="function", props=["C15"],
+    modes={"single-key": Mode(params=dict(self=mkd_obj, key=_key, value=lambda m, n: z3.Const("value", V)), requires=["wf(self)"],
+                              ensures=[("S:d[k]-is-the-last-value-assigned-to-k;other-keys-keep-their-values", "SET_MAP()"),
+                                       ("S:keys-in-order-of-most-recent-assignment", "SET_RECENT_LAST()")]),
+           "key-tuple": Mode(params=dict(self=mkd_obj, key=_key_tuple_param, value=lambda m, n: z3.Const("value", V)), requires=["wf(self)", "TLEN(key) >= 1"],
+                             ensures=[("S:every-key-of-the-tuple-maps-to-the-value;other-keys-keep-their-values", "SETT_MAP()"),
+                                      ("S:keys-not-assigned-now-keep-their-relative-order", "SETT_OTHERS()"),
+                                      ("S:keys-assigned-now-come-after-the-value's-older-keys", "SETT_NEW_AFTER_OLD()"),
+                                      ("S:keys-assigned-now-are-ordered-by-their-last-occurrence-in-the-tuple", "SETT_NEW_BY_LAST()")],
+                             note="a key tuple may repeat a key: the last occurrence counts")},
+    loops={1: Loop(inv=[("C:shape", "L1_SHAPE()"), ("C:distinct-keys-by-decreasing-last-index", "L1_ITEMS()"), ("C:every-key-seen-is-listed", "L1_COVER()")], step=[_l1_step]),
+           2: Loop(pre=[_l2_pre], inv=[("C:shape", "L2_SHAPE()"), ("C:key1-nonempty", "KEY1_NONEMPTY()"), ("C:key1-distinct", "KEY1_DISTINCT()"), ("C:key1-members-are-members-of-key0", "KEY1_MEMBERS()"), ("C:key0-members-are-members-of-key1", "KEY1_MEMBERS2()"), ("C:key1-ordered-by-last-occurrence", "KEY1_ORDER()"), ("C:coherent", "wf(self)"),
+                                       ("C:exactly-the-processed-keys-are-gone", "L2_MAP()"), ("C:order-inside-groups-kept", "L2_ORDER()")]),
+           3: Loop(pre=[_l3_pre], inv=[("C:shape", "L3_SHAPE()"), ("C:assigned-so-far", "L3_KD()")])},
+    ensures=[("S:each-value-owns-exactly-one-tuple-listing-exactly-its-keys", "SET_GROUPS()"),
+             ("S:the-three-maps-stay-coherent", "wf(self)")],
+    replay="oracles.bounded_adapter:c15",
+    stated=["d[k] = v makes k map to v and changes no other key's value; afterwards each value owns exactly one key tuple listing exactly its keys, "
+            "the key just assigned last and all others in their previous relative order; the representation invariant is preserved"]))
+setitem.binop_hook = _set_binop
+setitem.isinstance_hook = _set_isinstance
+setitem.iter_hook = _set_iter
+setitem.default_elem = KEYP
+setitem.loop_havoc_ghost = True
+setitem.ghost_const = {"KDd0", "KDv0", "IDd0", "IDv0", "SDd0", "SDv0", "key0", "key1", "KDd1", "KDv1", "IDd1", "IDv1", "SDd1", "SDv1", "KDd2", "KDv2", "IDd2", "IDv2", "SDd2", "SDv2"}
+setitem.ghost_init_hook = _delitem_init
+setitem.globs = dict(setitem.globs, MultiKeyDict=sym.Module("MultiKeyDict", {"__delitem__": _delitem_callee}), reversed=_reversed, tuple=_tuple_builtin2)
